@@ -410,6 +410,8 @@ func (vs *ValidatorStore) GetEndBlockUpdate(ctx *ValidatorContext, req types.Req
 	if height > 1 || (len(vs.byzantine) > 0) {
 		// map for non top-power validators
 		nonTopValidators := make(map[string]types.PubKey)
+		// validators recorded as active that are not elected any more
+		deactivated := make(map[string]struct{})
 
 		// collect top-power validators
 		cnt := int64(0)
@@ -443,6 +445,11 @@ func (vs *ValidatorStore) GetEndBlockUpdate(ctx *ValidatorContext, req types.Req
 
 			requiredStatusUpdate := false
 			validatorStatus, _ := ctx.EvidenceStore.GetValidatorStatus(validator.Address)
+			if validatorStatus != nil && validatorStatus.IsActive && !updateTendermint {
+				// a positive update was sent for this validator and not taken back yet; it may not
+				// have reached the set that signs blocks, so lastActive alone would miss it
+				deactivated[string(addr)] = struct{}{}
+			}
 			if validatorStatus == nil {
 				requiredStatusUpdate = true
 				logger.Infof("Creating status for validator: %s as: %t\n", validator.Address, updateTendermint)
@@ -503,6 +510,11 @@ func (vs *ValidatorStore) GetEndBlockUpdate(ctx *ValidatorContext, req types.Req
 		keysLA := make([]string, 0, len(vs.lastActive))
 		for k := range vs.lastActive {
 			keysLA = append(keysLA, k)
+		}
+		for k := range deactivated {
+			if _, ok := vs.lastActive[k]; !ok {
+				keysLA = append(keysLA, k)
+			}
 		}
 		sort.Strings(keysLA)
 
